@@ -7,30 +7,54 @@
 #define CONTRACTS_TREE_BUILDER_ADDLEAF_H
 #include "spec/tree.h"
 
-/* hands the node over to the builder: on success the builder owns it (and what was joined on top of it);
- * on failure NOTHING allocated by the call survives and the node still belongs to the caller */
+/* Ghost CALL RECORDS.  When a callee is REPLACED by its contract (job C19.addLeaf defines GHOST_RECORDS) the
+ * contract additionally records "called, with this argument, returning this" in ghost variables that no code
+ * reads - this adds no assumption about the program state.  When the contract is ENFORCED on the real body
+ * (C19.pin, C16.levelWithOverhead, C16.calcHighest) the records are left out. */
+#ifdef GHOST_RECORDS
+#define GR_ENSURES(x) __CPROVER_ensures(x)
+#define GR_ASSIGNS(...) , __VA_ARGS__
+#define GR_ASSIGNS_ONLY(...) __VA_ARGS__
+#else
+#define GR_ENSURES(x)
+#define GR_ASSIGNS(...)
+#define GR_ASSIGNS_ONLY(...)
+#endif
+
+/* hands the node over to the builder: on success the builder owns it (and what the leaf processors joined on
+ * top of it); on failure NOTHING allocated by the call survives, the stack view and the node are unchanged and
+ * the node still belongs to the caller */
 static int processAndInsertNode(KSI_TreeBuilder *builder, KSI_TreeNode *node)
-__CPROVER_requires(builder != NULL && node != NULL && g_live >= 0 && g_live < 100000)
-__CPROVER_ensures(g_pin_calls == __CPROVER_old(g_pin_calls) + 1 && g_pin_res == __CPROVER_return_value && g_pin_node == node)
-__CPROVER_ensures(g_pin_delta >= 0 && g_pin_delta < 1000 && g_live == __CPROVER_old(g_live) + g_pin_delta)
-__CPROVER_ensures(IMPLIES(__CPROVER_return_value != KSI_OK, g_pin_delta == 0))
-__CPROVER_ensures(node->level == __CPROVER_old(node->level) && node->hash == __CPROVER_old(node->hash) && node->metaData == __CPROVER_old(node->metaData))
-__CPROVER_assigns(g_pin_calls, g_pin_res, g_pin_node, g_pin_delta, g_live, g_alloc_failed, builder->stack, node->parent,
-		g_tr, g_tr_n, g_tr_failed, g_tr_result, g_tr_hsr, g_tr_hsr_mixed);
+__CPROVER_requires(builder != NULL && builder->ctx != NULL && builder->hsr != NULL && node != NULL && g_live >= 0 && g_live < 100000)
+__CPROVER_requires(((node->hash != NULL) != (node->metaData != NULL)) && node != &g_occ && node->parent == NULL)
+/* builder invariant as in contracts/tree_builder_insert.h: occupied slots hold the (well-formed) representative occupant */
+__CPROVER_requires((g_occ.hash != NULL) != (g_occ.metaData != NULL) && g_occ.level <= 0xff)
+__CPROVER_requires(__CPROVER_forall { int i; (0 <= i && i < KSI_TREE_BUILDER_STACK_LEN) ==> TB_SLOT_OK(builder, i) })
+__CPROVER_requires(g_w1 < g_w2 && g_w2 < KSI_TREE_BUILDER_STACK_LEN)
+GR_ENSURES(g_pin_calls == __CPROVER_old(g_pin_calls) + 1 && g_pin_res == __CPROVER_return_value && g_pin_node == node)
+__CPROVER_ensures(IMPLIES(__CPROVER_return_value != KSI_OK,
+		g_live == __CPROVER_old(g_live) && node->parent == NULL &&
+		builder->stack[g_w1] == __CPROVER_old(builder->stack[g_w1]) && builder->stack[g_w2] == __CPROVER_old(builder->stack[g_w2])))
+__CPROVER_ensures(IMPLIES(__CPROVER_return_value == KSI_OK, g_live >= __CPROVER_old(g_live) && g_live - __CPROVER_old(g_live) <= 512))
+__CPROVER_ensures(node->level == __CPROVER_old(node->level) && node->hash == __CPROVER_old(node->hash) && node->metaData == __CPROVER_old(node->metaData) &&
+		node->leftChild == __CPROVER_old(node->leftChild) && node->rightChild == __CPROVER_old(node->rightChild))
+__CPROVER_assigns(g_live, g_alloc_failed, builder->stack, node->parent, g_occ.parent, g_proc_hash.ref,
+		g_tr, g_tr_n, g_tr_failed, g_tr_result, g_tr_hsr, g_tr_hsr_mixed, g_cbl_calls GR_ASSIGNS(g_pin_calls, g_pin_res, g_pin_node));
 
 /* level of the leaf after the leaf processors have put their nodes on top: never less than the input, 0..255 */
 static int levelWithOverhead(KSI_TreeBuilder *builder, unsigned short inLevel, unsigned short *outLevel)
 __CPROVER_requires(builder != NULL && outLevel != NULL)
-__CPROVER_ensures(g_lwo_calls == __CPROVER_old(g_lwo_calls) + 1)
+GR_ENSURES(g_lwo_calls == __CPROVER_old(g_lwo_calls) + 1)
 __CPROVER_ensures(IMPLIES(__CPROVER_return_value == KSI_OK, *outLevel >= inLevel && *outLevel <= 0xff))
 __CPROVER_ensures(IMPLIES(__CPROVER_return_value != KSI_OK, *outLevel == __CPROVER_old(*outLevel)))
-__CPROVER_assigns(*outLevel, g_lwo_calls);
+__CPROVER_assigns(*outLevel GR_ASSIGNS(g_lwo_calls));
 
 /* upper bound of the root level if a subtree of `level` is added: at least `level`, state untouched */
 static unsigned calculateHighestLevel(KSI_TreeBuilder *builder, unsigned level)
 __CPROVER_requires(builder != NULL)
-__CPROVER_ensures(g_chl_calls == __CPROVER_old(g_chl_calls) + 1 && g_chl_result == __CPROVER_return_value && __CPROVER_return_value >= level)
-__CPROVER_assigns(g_chl_calls, g_chl_result);
+GR_ENSURES(g_chl_calls == __CPROVER_old(g_chl_calls) + 1 && g_chl_result == __CPROVER_return_value)
+__CPROVER_ensures(__CPROVER_return_value >= level)
+__CPROVER_assigns(GR_ASSIGNS_ONLY(g_chl_calls, g_chl_result));
 
 #define AL_ARGS_OK (builder != NULL && ((hsh != NULL) != (metaData != NULL)) && spec_tree_level_valid((long long)level))
 static int addLeaf(KSI_TreeBuilder *builder, KSI_DataHash *hsh, KSI_MetaData *metaData, int level, KSI_TreeLeafHandle **leaf)
@@ -39,11 +63,15 @@ __CPROVER_requires(hsh == NULL || hsh->ref >= 1)
 __CPROVER_requires(metaData == NULL || metaData->ref >= 1)
 __CPROVER_requires(leaf == NULL || leaf == &g_leaf_out)
 __CPROVER_requires(g_pin_calls == 0 && g_chl_calls == 0 && g_lwo_calls == 0 && g_live >= 0 && g_live < 1000)
+__CPROVER_requires(g_w1 < g_w2 && g_w2 < KSI_TREE_BUILDER_STACK_LEN)
 /* (A1) accepted => arguments fine, tree not closed, the node was handed over exactly once and accepted */
 __CPROVER_ensures(IMPLIES(__CPROVER_return_value == KSI_OK,
 		AL_ARGS_OK && builder->rootNode == NULL && g_pin_calls == 1 && g_pin_res == KSI_OK))
 /* (A2) NOTHING may fail once the builder owns the node (else the caller would free a node the tree points to) */
 __CPROVER_ensures(IMPLIES(g_pin_calls >= 1 && g_pin_res == KSI_OK, __CPROVER_return_value == KSI_OK && g_pin_calls == 1))
+/* (A2b) the same without ghost records: a refused leaf leaves the stack view as it was */
+__CPROVER_ensures(IMPLIES(__CPROVER_return_value != KSI_OK && builder != NULL,
+		builder->stack[g_w1] == __CPROVER_old(builder->stack[g_w1]) && builder->stack[g_w2] == __CPROVER_old(builder->stack[g_w2])))
 /* (A3) the handle: a new object naming the new leaf node, which carries the given hash / meta-data and level */
 __CPROVER_ensures(IMPLIES(__CPROVER_return_value == KSI_OK && leaf != NULL,
 		__CPROVER_is_fresh(*leaf, sizeof(KSI_TreeLeafHandle)) && (*leaf)->ref == 1 && (*leaf)->pBuilder == builder &&
@@ -51,7 +79,7 @@ __CPROVER_ensures(IMPLIES(__CPROVER_return_value == KSI_OK && leaf != NULL,
 		(*leaf)->leafNode->hash == hsh && (*leaf)->leafNode->metaData == metaData))
 /* (A4) live-allocation accounting: success keeps the node (+ handle + what the insertion joined); a failure keeps
  *      nothing, leaves the out-parameter untouched and does not keep a reference to the hash / meta-data */
-__CPROVER_ensures(IMPLIES(__CPROVER_return_value == KSI_OK, g_live == __CPROVER_old(g_live) + 1 + (leaf != NULL ? 1 : 0) + g_pin_delta))
+__CPROVER_ensures(IMPLIES(__CPROVER_return_value == KSI_OK, g_live >= __CPROVER_old(g_live) + 1 + (leaf != NULL ? 1 : 0)))
 __CPROVER_ensures(IMPLIES(__CPROVER_return_value == KSI_OK && hsh != NULL, hsh->ref == __CPROVER_old(hsh->ref) + 1))
 __CPROVER_ensures(IMPLIES(__CPROVER_return_value != KSI_OK,
 		g_live == __CPROVER_old(g_live) && (leaf == NULL || *leaf == __CPROVER_old(*leaf)) &&
@@ -67,6 +95,6 @@ __CPROVER_ensures(IMPLIES(AL_ARGS_OK && builder->maxTreeLevel > 0 && (level > bu
 __CPROVER_ensures(IMPLIES(AL_ARGS_OK && builder->maxTreeLevel > 0 && level <= builder->maxTreeLevel && g_lwo_calls == 1 && __CPROVER_return_value != KSI_BUFFER_OVERFLOW && g_pin_calls == 1, g_chl_calls == 1))
 __CPROVER_assigns(leaf != NULL: *leaf; hsh != NULL: hsh->ref; metaData != NULL: metaData->ref;
 		builder != NULL: builder->stack;
-		g_pin_calls, g_pin_res, g_pin_node, g_pin_delta, g_chl_calls, g_chl_result, g_lwo_calls, g_live, g_alloc_failed,
+		g_pin_calls, g_pin_res, g_pin_node, g_chl_calls, g_chl_result, g_lwo_calls, g_live, g_alloc_failed, g_occ.parent, g_cbl_calls, g_proc_hash.ref,
 		g_tr, g_tr_n, g_tr_failed, g_tr_result, g_tr_hsr, g_tr_hsr_mixed);
 #endif
